@@ -5,7 +5,7 @@ import common as C
 from gen import matchers as G
 
 PROPERTY = "C17"
-LEAN_MODULES = ["LccModel.Props.C17"]
+LEAN_MODULES = ["LccModel.Props.C17", "LccModel.Model.MatcherJson", "LccModel.Proto"]   # the last two: what drivers/C17.lean imports
 PROPS_FILES = ["LccModel/Props/C17.lean"]
 NAMESPACES = {"LccModel/Props/C17.lean": "LccModel.C17"}
 DRIVER = "drivers/C17.lean"
@@ -99,7 +99,35 @@ def has_unescaped_quote_argument(e):
     return any(has_unescaped_quote_argument(s) for s in G.sub_exprs(e))
 
 
+CLAUSE_HOSTS_1 = ("has_item", "has_all_items", "has_length")     # [constructor, sub-matcher]
+CLAUSE_HOSTS_2 = ("has_entry", "is_type")                         # [constructor, key path / type, sub-matcher]
+
+
+def clause_of(e):
+    """(host, sub-matcher) if e — looked at through is_(), not_() and hide_result_details() — is a matcher whose sentence
+    embeds the sentence of a sub-matcher as a clause ("… that <clause>", "… whose value <clause>"); else None"""
+    while e[0] in ("is_", "not_", "hide"):
+        e = e[1]
+    if e[0] in CLAUSE_HOSTS_1:
+        return e, e[1]
+    if e[0] in CLAUSE_HOSTS_2 and e[2] != ["val", None]:      # a plain None means "no value matcher"
+        return e, e[2]
+    return None
+
+
+def is_clause_over_composite(e):
+    c = clause_of(e)
+    if c is None:
+        return False
+    inner = _strip_is(c[1])
+    while inner[0] == "hide":
+        inner = _strip_is(inner[1])
+    return inner[0] in ("all_of", "any_of") and len(inner[1]) >= 1
+
+
 SIG_EMPTY = "C17/empty-all_of-any_of-same-description"
+SIG_CLAUSE = "C17/sub-matcher-clause-wording-depends-on-parent"
+SIG_CLAUSE_COLLISION = "C17/composite-sub-matchers-same-clause-description"
 SIG_QUOTE = "C17/string-argument-not-escaped-forges-wording"
 SIG_NOTCOMP = "C17/not-over-composite-equals-composite-of-nots"
 SIG_COLLISION = "C17/same-description-different-accepted-values"
@@ -138,6 +166,18 @@ class Describe(C.Stream):
         {"expr": ["all_of", [_a, ["any_of", [_b, ["all_of", [_a, ["is_none"]]]]]]], "tr": [False, False]},
         {"expr": ["all_of", [["hide", ["any_of", [_a, _b]]], _a]], "tr": [False, False]},                       # a wrapped composite is not "composite of composite"
         {"expr": ["all_of", [["override", "", _a]]], "tr": [False, False]},
+        # the clause of a sub-matcher reads the same whether its parent is negated or not, and is never abbreviated
+        {"expr": ["not_", ["has_entry", ["k"], _a]], "tr": [False, False]},
+        {"expr": ["not_", ["has_entry", ["k"], ["not_", _a]]], "tr": [False, False]},
+        {"expr": ["not_", ["has_item", _b]], "tr": [False, False]},
+        {"expr": ["not_", ["has_all_items", ["is_none"]]], "tr": [False, False]},
+        {"expr": ["not_", ["has_length", ["val", ["i", 2]]]], "tr": [False, False]},
+        {"expr": ["not_", ["is_type", "dict", ["has_key", ["k"]]]], "tr": [False, False]},
+        {"expr": ["has_item", ["all_of", [_a, _b]]], "tr": [False, False]},
+        {"expr": ["has_item", ["any_of", [_a, _b]]], "tr": [False, False]},
+        {"expr": ["has_all_items", ["any_of", [_a, ["is_none"]]]], "tr": [False, False]},
+        {"expr": ["has_entry", ["k"], ["all_of", [_a, ["any_of", [_b, ["is_none"]]]]]], "tr": [False, False]},
+        {"expr": ["has_length", ["any_of", [_a, _b]]], "tr": [True, False]},
         # verb transformation
         {"expr": ["has_item", ["not_", ["existing"]]], "tr": [False, False]},
         {"expr": ["not_", ["has_entry", ["a", 0], ["val", ["s", "x"]]]], "tr": [True, False]},
@@ -164,6 +204,17 @@ class Describe(C.Stream):
         if top[0] == "not_":
             obs["inner"] = _describe(top[1], tr)[0]
             obs["inner_toggled"] = _describe(top[1], [tr[0], not tr[1]])[0]
+        cl = clause_of(e)
+        obs["clause"] = None
+        if cl is not None:
+            host, sub = cl
+            obs["clause"] = {
+                # the sub-matcher ALONE, the way a clause reads ("… that is equal to 1"): conjugated, its own polarity
+                "alone": _describe(sub, [True, False])[0],
+                # the host under both polarities of the parent (positive wording / wording under a not_())
+                "host_positive": _describe(host, [tr[0], False])[0],
+                "host_negated": _describe(host, [tr[0], True])[0],
+            }
         return obs
 
     def oracle(self, case, obs):
@@ -186,6 +237,19 @@ class Describe(C.Stream):
                 fails.append(C.Failure(
                     SIG_NEG_TOGGLE,
                     f"not_(m) is described {obs['desc']!r}; m with the polarity toggled is {obs['inner_toggled']!r}"))
+        cl = obs.get("clause")
+        if cl and all(isinstance(cl[k], str) for k in ("alone", "host_positive", "host_negated")) and in_fragment(e):
+            # "negation in the wording follows negation in the logic": negating the PARENT does not change what is required
+            # of the sub-matcher, so the clause must read exactly like the sub-matcher's own (unabbreviated) sentence,
+            # under a negated parent as well as under a positive one
+            host = clause_of(e)[0]
+            for which in ("host_positive", "host_negated"):
+                if not cl[which].endswith(cl["alone"]):
+                    fails.append(C.Failure(
+                        SIG_CLAUSE,
+                        f"{host[0]}: the sub-matcher alone reads {cl['alone']!r}, but the sentence of its parent "
+                        f"({'under not_()' if which == 'host_negated' else 'not negated'}) is {cl[which]!r}"))
+                    break
         return fails
 
     def request(self, case, obs):
@@ -326,6 +390,13 @@ def variants(e):
     return out
 
 
+_A, _B = ["equal_to", ["i", 1]], ["greater_than", ["i", 0]]
+_CLAUSE_SUBS = (["all_of", [_A, _B]], ["any_of", [_A, _B]], ["all_of", [_B, ["any_of", [_A, ["is_none"]]]]], ["any_of", [_A, ["is_none"]]],
+                ["all_of", [_A]], _A)
+CLAUSE_POOL = [[h, c] for h in ("has_item", "has_all_items", "has_length") for c in _CLAUSE_SUBS] + \
+              [[h, k, c] for h, k in (("has_entry", ["k"]), ("is_type", "list"), ("is_type", "int")) for c in _CLAUSE_SUBS]
+
+
 class Inject(C.Stream):
     """pools / exhaustive ranges of expressions: same description ⇒ same accepted set (real code); texts compared with the model"""
     name = "C17.inject"
@@ -340,6 +411,9 @@ class Inject(C.Stream):
         {"mode": "pool", "exprs": [["not_", ["all_of", [_a, _b]]], ["all_of", [["not_", _a], ["not_", _b]]]]},
         # D15 (open): all_of() and any_of() are both ":"
         {"mode": "pool", "exprs": [["all_of", []], ["any_of", []]]},
+        # sub-matcher clauses over composites: has_item / has_all_items / has_length / has_entry / typed, each over composites with
+        # different accepted sets (a collision here has its own signature)
+        {"mode": "pool", "exprs": CLAUSE_POOL},
         # D18 (open): a string argument containing a double quote reads like a composite of two string matchers
         {"mode": "pool", "exprs": [["any_of", [["starts_with", "a"], ["starts_with", "b"]]], ["starts_with", 'a" or to start with "b']]},
         # D12 / D13 (fixed)
@@ -373,6 +447,13 @@ class Inject(C.Stream):
             vs = variants(e)
             rng.shuffle(vs)
             pool.extend(vs[:rng.choice([1, 2, 3])])
+            if e[0] in ("all_of", "any_of") and len(e[1]) >= 1 and rng.random() < 0.5:
+                # the same clause host over this composite and over its dual: their sentences must differ
+                other = [("any_of" if e[0] == "all_of" else "all_of"), e[1]]
+                h = rng.choice([["has_item"], ["has_all_items"], ["has_length"], ["has_entry", ["k"]], ["is_type", "list"]])
+                pool.extend([h + [e], h + [other]])
+                if rng.random() < 0.5:
+                    pool.extend([["not_", h + [e]], ["not_", h + [["not_", e]]]])
         return {"mode": "pool", "exprs": pool}
 
     def impl(self, case):
@@ -400,7 +481,10 @@ class Inject(C.Stream):
         for col in obs["collisions"]:
             clean = [m for m in col["members"] if not has_empty_composite(m["expr"]) and not has_not_over_composite(m["expr"])]
             plain = [m for m in clean if not has_unescaped_quote_argument(m["expr"])]
-            if len({m["accepts"] for m in plain}) > 1:
+            hosts = [m for m in plain if is_clause_over_composite(m["expr"])]
+            if len({m["accepts"] for m in hosts}) > 1:
+                sig, members = SIG_CLAUSE_COLLISION, hosts
+            elif len({m["accepts"] for m in plain}) > 1:
                 sig, members = SIG_COLLISION, plain
             elif len({m["accepts"] for m in clean}) > 1:
                 sig, members = SIG_QUOTE, clean
@@ -412,7 +496,7 @@ class Inject(C.Stream):
                 continue
             seen.add(sig)
             a = members[0]
-            b = next(m for m in members if m["accepts"] != a["accepts"]) if sig in (SIG_COLLISION, SIG_QUOTE) else \
+            b = next(m for m in members if m["accepts"] != a["accepts"]) if sig in (SIG_COLLISION, SIG_QUOTE, SIG_CLAUSE_COLLISION) else \
                 next(m for m in col["members"] if m["accepts"] != a["accepts"])
             fails.append(C.Failure(sig, f"{a['expr']} and {b['expr']} are both described as {col['description']!r} but accept "
                                         f"different values of the separating domain ({a['accepts']} / {b['accepts']})",
